@@ -636,7 +636,7 @@ DomainNameToSequenceOfLabels(const uint8_t *name, size_t name_len, uint8_t *buf,
 
 	label_pos = buf; // first label contain len
 	dot_pos = (label_pos + 1); // ponts to start of domain name
-	memcpy(dot_pos, name, name_len); // copy domain name to new place (or move it 1 byte from start)
+	memmove(dot_pos, name, name_len); // copy domain name to new place (or move it 1 byte from start)
 	(*(uint8_t*)(buf + name_len + 1)) = 0; // store null label = end marker
 
 	// now replace dots by labels with len
@@ -1017,7 +1017,7 @@ dns_msg_sequence_of_labels2name(dns_hdr_p hdr, size_t msg_size, size_t offset,
     uint8_t *name, size_t name_buf_size, size_t *name_len_ret) {
 	uint8_t *cur_pos, *new_pos, *max_pos;
 	uint16_t label, tmu16;
-	size_t name_len, jumps;
+	size_t name_len, jumps, offset_start = offset;
 
 	if (NULL == hdr || NULL == name || 0 == name_buf_size ||
 	    sizeof(dns_hdr_t) > offset || msg_size <= offset)
@@ -1067,8 +1067,12 @@ dns_msg_sequence_of_labels2name(dns_hdr_p hdr, size_t msg_size, size_t offset,
 		}
 
 		name_len += (label + 1);
-		if (name_len >= name_buf_size) {
-			if (NULL != name_len_ret) { // return required len
+		if (name_len > name_buf_size) { // the last dot becomes the zero at the end
+			if (NULL != name_len_ret) { // return required buf size: whole name + zero
+				if (0 == dns_msg_sequence_of_labels_get_name_len(hdr,
+				    msg_size, offset_start, &name_len)) {
+					name_len ++;
+				}
 				(*name_len_ret) = name_len;
 			}
 			return (EOVERFLOW);
@@ -1232,7 +1236,9 @@ dns_msg_rr_add(dns_hdr_p hdr, size_t msg_size, size_t msgbuf_size, int compress,
 	rr->class = htons(class);
 	rr->ttl = htonl(ttl);
 	rr->rdlength = htons(data_size);
-	memcpy(&rr->rdata, data, data_size);
+	if (0 != data_size) { /* (NULL, 0) is allowed. */
+		memcpy(&rr->rdata, data, data_size);
+	}
 
 	return (0);
 }
@@ -1269,7 +1275,9 @@ dns_msg_optrr_add(dns_hdr_p hdr, size_t msg_size, size_t msgbuf_size,
 	opt_rr->ex_rcode = ex_rcode;
 	opt_rr->ex_flags.u16 = ex_flags;
 	opt_rr->rdlength = htons(data_size);
-	memcpy(&opt_rr->rdata, data, data_size);
+	if (0 != data_size) { /* (NULL, 0) is allowed. */
+		memcpy(&opt_rr->rdata, data, data_size);
+	}
 
 	return (0);
 }
